@@ -99,7 +99,7 @@ pub fn scase_strategy() -> BoxedStrategy<SCase> {
     (content_strategy(), any::<u8>(), (any::<u16>(), any::<u16>(), any::<u16>(), any::<u16>(), any::<u16>()), (any::<u8>(), any::<u16>(), char_strategy(2), content_strategy()), any::<u8>())
         .prop_map(|(s, svar, (ctor, j, qctor, op, k), (rel, pos, c, other), qvar)| {
             let q = partner(&s, rel, pos, c, &other);
-            SCase { s_var: svar % 5 == 0, ctor: pick(CTORS, ctor).to_string(), j, q_var: qvar % 5 == 0, qctor: pick(QCTORS, qctor).to_string(), op: pick(OPS, op).to_string(), k, s, q }
+            avoid_findings(SCase { s_var: svar % 5 == 0, ctor: pick(CTORS, ctor).to_string(), j, q_var: qvar % 5 == 0, qctor: pick(QCTORS, qctor).to_string(), op: pick(OPS, op).to_string(), k, s, q })
         })
         .boxed()
 }
@@ -248,32 +248,98 @@ fn head_tail(t: &T) -> Option<(T, T)> {
     Some((items[0].clone(), rest))
 }
 
-/// number of maximal runs of NUL characters
-fn nul_runs(s: &str) -> usize {
-    let mut runs = 0;
-    let mut prev = false;
-    for c in s.chars() {
-        if c == '\0' && !prev {
-            runs += 1;
-        }
-        prev = c == '\0';
-    }
-    runs
+// ---------------------------------------------------------------------------------------------
+// open findings (see known/C20.json): the case classes they make fail are recognised here; the
+// generator avoids them (all but a few witnesses) and `check` labels a failure inside such a class
+// with the finding's signature.
+
+/// a clause head holding a string with a NUL character does not unify with an equal packed string argument
+const NUL_HEAD_SIG: &str = "clause-head-string:NUL";
+/// compare/3, ==/2, sort/2 and =/2 of two packed strings read a wrong tail cell when the string that ends
+/// first is entered at a byte offset that is not a multiple of 8 (panic types.rs:751, segfault, or a
+/// unification that wrongly fails)
+const UNALIGNED_CMP_SIG: &str = "pstr-compare:unaligned-offset";
+/// findall/3 copies a suffix of a packed string from the enclosing cell boundary; when that boundary
+/// falls inside a multi-byte character whose remaining bytes decode to code 0 the copy panics
+/// (heap.rs push_pstr) or gains a spurious NUL character
+const SUFFIX_COPY_SIG: &str = "findall-copy:suffix-at-continuation-byte";
+
+fn is_packed(ctor: &str) -> bool {
+    !matches!(ctor, "plain" | "univ")
 }
 
-/// open finding: a clause head holding a string with two or more separate runs of NUL characters
-/// does not unify with an equal string argument
-const NUL_HEAD_SIG: &str = "clause-head-string:two-NUL-runs";
-fn nul_head_trigger(c: &SCase, op: &str) -> bool {
-    matches!(op, "assert" | "index") && (nul_runs(&c.s) >= 2 || nul_runs(&c.q) >= 2)
+/// some continuation byte b[i] of a multi-byte character, read as if it started a character, decodes to
+/// code point 0: (b[i] & 0x1F) == 0 and (next byte, or the terminator, & 0x3F) == 0
+fn suffix_copy_risky(s: &str) -> bool {
+    let b = s.as_bytes();
+    (1..b.len()).any(|i| (b[i] & 0xC0) == 0x80 && (b[i] & 0x1F) == 0 && (b.get(i + 1).copied().unwrap_or(0) & 0x3F) == 0)
+}
+
+/// replace the characters that make `suffix_copy_risky` true by their successor code point (same byte length)
+fn derisk(s: &str) -> String {
+    let mut cur: Vec<char> = s.chars().collect();
+    for _ in 0..(4 * cur.len() + 4) {
+        let text: String = cur.iter().collect();
+        let b = text.as_bytes();
+        let Some(i) = (1..b.len()).find(|&i| (b[i] & 0xC0) == 0x80 && (b[i] & 0x1F) == 0 && (b.get(i + 1).copied().unwrap_or(0) & 0x3F) == 0) else { return text };
+        // the character that contains byte i
+        let mut at = 0;
+        for c in cur.iter_mut() {
+            let n = c.len_utf8();
+            if i < at + n {
+                *c = char::from_u32(*c as u32 + 1).unwrap_or('x');
+                break;
+            }
+            at += n;
+        }
+    }
+    cur.iter().collect()
+}
+
+const CMP_OPS: &[&str] = &["compare", "ordops", "eq", "sort_terms", "keysort", "head_tail"];
+
+/// signature of the open finding this (effective) case may run into, if any
+fn finding_of(c: &SCase, op: &str, ctor: &str, s_var: bool) -> Option<&'static str> {
+    let both_packed = is_packed(ctor) && is_packed(&c.qctor);
+    let pair_op = CMP_OPS.contains(&op) || matches!(op, "unify" | "unify_rev" | "unify_oc" | "unify_struct" | "not_unify");
+    if pair_op && both_packed && ((matches!(ctor, "append" | "suffix") && !s_var) || op == "head_tail") {
+        return Some(UNALIGNED_CMP_SIG);
+    }
+    if matches!(op, "assert" | "index") && (c.s.contains('\0') || c.q.contains('\0')) {
+        return Some(NUL_HEAD_SIG);
+    }
+    if (is_packed(ctor) && suffix_copy_risky(&c.s)) || (is_packed(&c.qctor) && suffix_copy_risky(&c.q)) {
+        return Some(SUFFIX_COPY_SIG);
+    }
+    None
+}
+
+/// generator-side exclusion of the open findings
+fn avoid_findings(mut c: SCase) -> SCase {
+    for _ in 0..3 {
+        let s_var = c.s_var && !c.s.is_empty();
+        let q_var = c.q_var && !c.q.is_empty();
+        let op = effective_op(&c, s_var, q_var).to_string();
+        let ctor = effective_ctor(&c.ctor, &c.s).to_string();
+        match finding_of(&c, &op, &ctor, s_var) {
+            None => break,
+            // may crash the worker process: never generated (the stored witness covers it)
+            Some(UNALIGNED_CMP_SIG) => c.op = "walk".into(),
+            Some(_) if c.k % 8 == 0 => break, // witness
+            Some(NUL_HEAD_SIG) => c.op = "unify".into(),
+            Some(_) => {
+                c.s = derisk(&c.s);
+                c.q = derisk(&c.q);
+            }
+        }
+    }
+    c
 }
 
 /// operation actually applied: falls back to `unify` when the model result would not be determined
 fn effective_op<'a>(c: &'a SCase, s_var: bool, q_var: bool) -> &'a str {
     let len = c.s.chars().count();
     let ok = match c.op.as_str() {
-        // excluded by construction except for a few witnesses (open finding NUL_HEAD_SIG)
-        "assert" | "index" if nul_head_trigger(c, &c.op) => c.k % 8 == 0,
         "length" | "length_chk" | "append_sq" | "nth0" | "nth1" | "nth0_enum" | "members" | "memberchk" | "reverse" | "sort" | "atom_back" => !s_var,
         "append_split" => !s_var && len <= 40,
         "number_back" => !s_var && is_plain_number(&c.s),
@@ -416,6 +482,7 @@ pub fn check(env: &mut Env, c: &SCase) -> Verdict {
     let s_t = chars_term(&c.s, if s_var { T::Var(0) } else { nil() });
     let q_t = chars_term(&c.q, if q_var { T::Var(1) } else { nil() });
     let exp = model(op, &s_t, &q_t, k);
+    let known = finding_of(c, op, ctor, s_var);
     let qb = build("Q", &c.qctor, &c.q, q_var, c.j, 1);
     let mut results: Vec<(String, Outcome, String)> = vec![];
     let reps: Vec<&str> = if ctor == "plain" { vec!["plain"] } else { vec![ctor, "plain"] };
@@ -423,6 +490,9 @@ pub fn check(env: &mut Env, c: &SCase) -> Verdict {
         let goal = format!("{}, {}, c20_op({}, S, Q, {}, R)", build("S", rep, &c.s, s_var, c.j, 0), qb, op, k);
         let o = env.s.ask(&goal, "R");
         if let Outcome::Panic(m) = &o {
+            if let Some(sig) = known {
+                return Verdict::fail(sig, format!("{goal} panicked: {m}"));
+            }
             return Verdict::fail(format!("panic:{}:{}", m.split_whitespace().next().unwrap_or("?"), op), format!("{goal} panicked: {m}"));
         }
         if let Outcome::Harness(m) = &o {
@@ -455,8 +525,8 @@ pub fn check(env: &mut Env, c: &SCase) -> Verdict {
                 Exp::Meta => String::new(),
             };
             let side = if rep == "plain" { "explicit-list" } else { "string" };
-            if nul_head_trigger(c, op) {
-                return Verdict::fail(NUL_HEAD_SIG, format!("{goal}\n  gave {}\n  expected {}", o.short().chars().take(700).collect::<String>(), want.chars().take(700).collect::<String>()));
+            if let Some(sig) = known {
+                return Verdict::fail(sig, format!("{goal}\n  gave {}\n  expected {}", o.short().chars().take(700).collect::<String>(), want.chars().take(700).collect::<String>()));
             }
             return Verdict::fail(format!("wrong-{side}:{op}:{rep}"), format!("{goal}\n  gave {}\n  expected {}", o.short().chars().take(700).collect::<String>(), want.chars().take(700).collect::<String>()));
         }
@@ -472,6 +542,9 @@ pub fn check(env: &mut Env, c: &SCase) -> Verdict {
             _ => false,
         };
         if !same && !matches!(exp, Exp::Bag(_)) {
+            if let Some(sig) = known {
+                return Verdict::fail(sig, format!("{}\n  gave {}\nbut on the explicit list gave {}", results[0].2, results[0].1.short().chars().take(500).collect::<String>(), results[1].1.short().chars().take(500).collect::<String>()));
+            }
             return Verdict::fail(format!("string-vs-list:{op}:{}", results[0].0), format!("{}\n  gave {}\nbut on the explicit list\n  {}\n  gave {}", results[0].2, results[0].1.short().chars().take(500).collect::<String>(), results[1].2, results[1].1.short().chars().take(500).collect::<String>()));
         }
     }
